@@ -1,5 +1,85 @@
-"""INSTALL-COMPLETE (C19): placeholder until implemented."""
+"""INSTALL-MUST (C19, "after any sequence of parameter selections the library computes exactly what a freshly initialised
+library with the last selection computes"): every normal return of a parameter setter has passed the store of the setter's identifier
+field, which is part of the installation sequence of every setter.  A path that skips the installation is admissible only if it is keyed on the setter's identifier
+field *and* that key is sound, i.e. every public installer of the same state also writes the identifier - otherwise
+another installer leaves the identifier stale and the skip keeps constants of a different parameter set."""
+import re
+
+from .. import ir, engines
+from ..engines import Facts, key
+from ..facts import AnalysisBroken
+from .c03 import c05_line
+
+# setter -> (identifier field of the context, regex of the public installers of the state it selects)
+SETTERS = {
+    "fp_param_set": ("fp_id", re.compile(r"^fp_prime_set_(dense|pairf|pmers)$")),
+    "fb_param_set": ("fb_id", re.compile(r"^fb_poly_set_(dense|trino|penta)$")),
+    "ep_param_set": ("ep_id", re.compile(r"^ep_curve_set_(plain|super|endom)$")),
+    "eb_param_set": ("eb_id", re.compile(r"^eb_curve_set$")),
+    "ed_param_set": ("ed_id", re.compile(r"^ed_curve_set$")),
+}
+
+
+def analyse(ctx, prog, chk):
+    n = 0
+    lib = prog
+    while getattr(lib, "library", None) is not None:
+        lib = lib.library
+    for fn in prog.all:
+        b = fn.name.split("__")[-1]
+        if b not in SETTERS:
+            continue
+        idf, inst = SETTERS[b]
+        g = ctx.xcfg(prog, fn)
+
+        def gen(node, s, pre, inst=inst, idf=idf):
+            # the installation sequence of every setter stores the identifier (the selected value, or 0 for a set
+            # that has none); a path without that store has bypassed the sequence
+            for sub in ir.walk(fn, node.el.e):
+                if sub[0] == "=":
+                    l = ir.strip_casts(sub[1])
+                    if isinstance(l, list) and l[0] == "m" and l[2] == idf:
+                        return [("ev", "installed")]
+            return []
+        F = Facts(prog, g, gen=gen, mark_thrown=True)
+        bad = None
+        keyed = False
+        nret = 0
+        for p, st in engines.normal_exit_states(F, g):
+            nret += 1
+            if ("ev", "installed") not in st:
+                bad = p
+                for x in st:
+                    if x[0] in ("cmp", "rel"):
+                        txt = repr(x)
+                        if idf in txt or re.search(r"%s_param_get" % b.split("_")[0], txt):
+                            keyed = True
+        if nret == 0:
+            continue        # no parameter set of this module is selectable under this configuration: every path throws
+        n += 1
+        if bad is None:
+            chk.ok("INSTALL-MUST", fn, idf, "every normal return has passed the store of ->%s inside the installation sequence" % idf, line=fn.line)
+            continue
+        stale = []
+        if keyed:
+            for f2 in lib.all:
+                if inst.match(f2.name) and not f2.static:
+                    writes_id = any(sub[0] == "=" and isinstance(ir.strip_casts(sub[1]), list) and ir.strip_casts(sub[1])[0] == "m" and ir.strip_casts(sub[1])[2] == idf
+                                    for el in f2.all_elements() for sub in ir.walk(f2, el.e))
+                    if not writes_id:
+                        stale.append(f2.name)
+        if keyed and not stale:
+            chk.ok("INSTALL-MUST", fn, idf, "the skipping path is keyed on ->%s and every public installer writes that identifier" % idf, line=fn.line)
+        elif keyed:
+            chk.fail("INSTALL-MUST", fn, idf, "a normal return skips the installation when the identifier ->%s matches, but %s install(s) the same state without writing that identifier: after one of them the identifier is stale and the constants of a different parameter set stay in use" % (
+                idf, ", ".join("`%s`" % x for x in stale[:3])), line=c05_line(bad, fn))
+        else:
+            chk.fail("INSTALL-MUST", fn, idf, "a normal return is reachable that bypasses the installation sequence (the identifier ->%s is not stored on it)" % idf, line=c05_line(bad, fn))
+    return n
 
 
 def run(ctx, chk):
-    return
+    n = analyse(ctx, ctx.program("BASE"), chk)
+    chk.floor("INSTALL-MUST", "parameter setters", n, 4)
+    for cfg in ("P255", "P381"):
+        analyse(ctx, ctx.program(cfg), chk)
